@@ -682,3 +682,106 @@ Proof.
   { destruct rest as [|q rest']; [exact I|]. intros [_ H]. apply Hend. exact H. }
   rewrite E. cbn [wbind]. exists d, s'. cbn in B. auto.
 Qed.
+
+(* ---- the whole token stream ------------------------------------------------------------------------ *)
+Inductive entry := EFrag (f : fragment) | EDesc (ls : list (list N)).
+Definition entry_toks (e : entry) : list ptok :=
+  match e with EFrag f => item_toks (frag_items f) | EDesc ls => desc_ptoks_lines ls end.
+Definition entry_ok (e : entry) : Prop :=
+  match e with EFrag f => frag_lx f /\ (forall d, f <> FDesc d) | EDesc ls => ls <> [] end.
+Definition entry_doc (e : entry) : fdoc :=
+  match e with EFrag f => fdoc_of f | EDesc ls => DD (join_with 10 ls) end.
+Definition is_desc (e : entry) : bool := match e with EDesc _ => true | _ => false end.
+
+(* entries with their "blank line before" flag *)
+Fixpoint stream (es : list (bool * entry)) : list ptok :=
+  match es with
+  | [] => []
+  | (b, e) :: r => (if b then [eol_tok] else []) ++ entry_toks e ++ eol_tok :: stream r
+  end.
+
+(* a description block is not directly followed by another one *)
+Fixpoint stream_ok (es : list (bool * entry)) : Prop :=
+  match es with
+  | [] => True
+  | (b, e) :: r => entry_ok e /\
+                   match r with (b2, e2) :: _ => is_desc e = true -> is_desc e2 = true -> b2 = true | [] => True end /\
+                   stream_ok r
+  end.
+
+Lemma skip_eol_loop f ff s r : pt s = eol_tok :: r ->
+  exists s1, pt s1 = r /\ walk_fragments_loop (S f) ff s = walk_fragments_loop f ff s1.
+Proof.
+  intros Hp. destruct (pt_cons s _ _ Hp) as (t & rs & Hrs0 & Et & Hrs & Epop & Hn). cbn [fst eol_tok] in Hn.
+  exists (mkW rs (Some t)). split; [rewrite pt_mk; exact Hrs|].
+  cbn [walk_fragments_loop]. rewrite Hn. replace (tt_eqb EOL EOF) with false by reflexivity.
+  unfold next_fragment. rewrite Hn, Epop. cbn [wbind].
+  destruct (walk_fragments_loop f ff (mkW rs (Some t))); reflexivity.
+Qed.
+
+Lemma entry_toks_first e : entry_ok e -> exists p r, entry_toks e = p :: r /\ fst p <> EOF /\
+  (is_desc e = false -> fst p <> DESCRIPTION).
+Proof.
+  destruct e as [f|ls]; cbn.
+  - intros [Hlx Hnd]. destruct (frag_items_head f Hlx Hnd) as (p & r & Hh & Hk). exists p, r. split; [exact Hh|].
+    destruct f as [h|a|d|t|t]; cbn in Hk; try contradiction.
+    + destruct Hk as [-> | ->]; split; try discriminate; intros _; discriminate.
+    + destruct Hk as [-> | ->]; split; try discriminate; intros _; discriminate.
+    + subst p. cbn. destruct Hlx as [[-> | ->] _]; split; try discriminate; intros _; discriminate.
+    + subst p. cbn. split; [discriminate|intros _; discriminate].
+  - intros Hne. destruct ls as [|l [|l2 r]]; [congruence| |]; eexists _, _; (split; [reflexivity|]); cbn; split; try discriminate.
+Qed.
+
+Theorem walk_stream_back : forall es fuel s, stream_ok es -> pt s = stream es ->
+  (length (wrest s) < fuel)%nat ->
+  exists fs, walk_fragments_loop fuel true s = WalkOk fs [] /\
+             (forall f d, In f fs -> fdoc_of f = DD d -> True) /\
+             map (fun f => match f with FDesc d => DD (dvalue d) | _ => fdoc_of f end) fs = map (fun be => entry_doc (snd be)) es.
+Proof.
+  induction es as [|[b e] r IH]; intros fuel s Hok Hp Hf.
+  - destruct fuel as [|f]; [lia|]. cbn [walk_fragments_loop]. cbn in Hp.
+    assert (Hn : next_type s = EOF) by (rewrite next_type_pt, Hp; reflexivity).
+    rewrite Hn. exists []. split; [reflexivity|]. split; [intros; exact I|reflexivity].
+  - cbn [stream_ok] in Hok. destruct Hok as (He & Hnext & Hr). cbn [stream] in Hp.
+    (* skip the blank line *)
+    assert (Hskip : exists fuel1 s1, pt s1 = entry_toks e ++ eol_tok :: stream r /\ (length (wrest s1) < fuel1)%nat /\
+                       walk_fragments_loop fuel true s = walk_fragments_loop fuel1 true s1).
+    { destruct b; cbn [app] in Hp.
+      - destruct fuel as [|f]; [lia|]. destruct (skip_eol_loop f true s _ Hp) as (s1 & Hp1 & E).
+        exists f, s1. split; [exact Hp1|]. split; [|exact E].
+        rewrite <- pt_length in *. rewrite Hp in Hf. rewrite Hp1. cbn [length] in Hf. lia.
+      - exists fuel, s. auto. }
+    destruct Hskip as (fuel1 & s1 & Hp1 & Hf1 & ->).
+    destruct fuel1 as [|f1]; [lia|]. cbn [walk_fragments_loop].
+    destruct (entry_toks_first e He) as (p & q & Hh & Hne & Hnd).
+    assert (Hn : next_type s1 = fst p) by (rewrite next_type_pt, Hp1, Hh; reflexivity).
+    rewrite Hn. replace (tt_eqb (fst p) EOF) with false by (symmetry; apply tt_eqb_false; exact Hne).
+    (* the fragment, then its EOL *)
+    assert (Hfrag : exists f s2, next_fragment s1 = WOk (Some f) s2 /\
+                      (match f with FDesc d => DD (dvalue d) | _ => fdoc_of f end) = entry_doc e /\
+                      (pt s2 = stream r \/ pt s2 = eol_tok :: stream r)).
+    { destruct e as [f0|ls]; cbn [entry_toks entry_ok entry_doc] in *.
+      - destruct He as [Hlx Hnd0]. destruct (next_fragment_back f0 s1 (stream r) Hlx Hnd0 Hp1) as (f & s2 & E & Hd & Hp2).
+        exists f, s2. split; [exact E|]. split; [|exact Hp2].
+        destruct f as [h|a|d|t|t]; exact Hd.
+      - destruct (next_fragment_desc_back ls s1 (stream r) He Hp1) as (d & s2 & E & Hdv & Hp2).
+        { destruct r as [|[b2 e2] r2]; [exact I|]. cbn [stream]. cbn [stream_ok] in Hr. destruct Hr as (He2 & _ & _).
+          destruct b2; [cbn; discriminate|]. cbn [app].
+          destruct (entry_toks_first e2 He2) as (p2 & q2 & Hh2 & _ & Hnd2). rewrite Hh2. cbn.
+          apply Hnd2. destruct (is_desc e2) eqn:Ed; [|reflexivity]. specialize (Hnext eq_refl eq_refl). discriminate. }
+        exists (FDesc d), s2. split; [exact E|]. split; [rewrite Hdv; reflexivity|right; exact Hp2]. }
+    destruct Hfrag as (f & s2 & E & Hd & Hp2). rewrite E.
+    assert (Hlen2 : (length (wrest s2) < f1)%nat).
+    { rewrite <- pt_length in *. rewrite Hp1, Hh in Hf1. cbn [app length] in Hf1. rewrite app_length in Hf1. cbn [length] in Hf1.
+      destruct Hp2 as [-> | ->]; cbn [length]; lia. }
+    (* the EOL that ends the line, when the production did not consume it *)
+    assert (Hrest : exists f2 s3, pt s3 = stream r /\ (length (wrest s3) < f2)%nat /\
+                       walk_fragments_loop f1 true s2 = walk_fragments_loop f2 true s3).
+    { destruct Hp2 as [Hp2|Hp2]; [exists f1, s2; auto|].
+      destruct f1 as [|f2]; [lia|]. destruct (skip_eol_loop f2 true s2 _ Hp2) as (s3 & Hp3 & E3).
+      exists f2, s3. split; [exact Hp3|]. split; [|exact E3].
+      rewrite <- pt_length in *. rewrite Hp2 in Hlen2. rewrite Hp3. cbn [length] in Hlen2. lia. }
+    destruct Hrest as (f2 & s3 & Hp3 & Hl3 & ->).
+    destruct (IH f2 s3 Hr Hp3 Hl3) as (fs & Ew & _ & Hdocs). rewrite Ew.
+    exists (f :: fs). split; [reflexivity|]. split; [intros; exact I|]. cbn [map snd]. rewrite Hd, Hdocs. reflexivity.
+Qed.
